@@ -146,6 +146,34 @@ def run(ctx):
                 kk = "%s:%s" % (fi.key, norm(x))
                 n_sites += 1
                 r.fail("C05.neighbour", kk, "the classifier uses the exact-adjacency look-ahead `%s`: it matches a fixed sequence of list positions, so whitespace, a line break or a comment between the tokens changes what it sees (the `_ignoring_whitespace` variant skips them)" % norm(x)[:70], fi.loc(x))
+    # the same hazard through a helper that looks at exactly the position it is given: a loop-free function of
+    # vhdlFile/utils.py that subscripts its list parameter with its index parameter (derived by shape) and is called
+    # from the classifier with `i + c` / `i - c`
+    exact = {}
+    for fi in p.functions.values():
+        if fi.module.name != "vsg.vhdlFile.utils" or fi.cls is not None:
+            continue
+        if any(isinstance(n, (ast.For, ast.While)) for n in walk_function(fi.node)):
+            continue
+        for n in walk_function(fi.node):
+            if isinstance(n, ast.Subscript) and isinstance(n.slice, ast.Name) and n.slice.id in fi.params and isinstance(n.value, ast.Name) and n.value.id in fi.params:
+                exact.setdefault(fi.name, set()).add(fi.params.index(n.slice.id))
+    r.extra["exact_position_helpers"] = sorted(exact)
+    if "object_value_is" not in exact:
+        raise AnalysisError("the exact-position helpers are no longer recognised by shape (found %s)" % sorted(exact))
+    for fi in sorted(p.functions.values(), key=lambda f: f.key):
+        if not _in_scope(fi):
+            continue
+        for x in walk_function(fi.node):
+            if not isinstance(x, ast.Call):
+                continue
+            fn = norm(x.func).split(".")[-1]
+            for i in exact.get(fn, ()):
+                a = x.args[i] if i < len(x.args) else None
+                if isinstance(a, ast.BinOp) and isinstance(a.op, (ast.Add, ast.Sub)) and isinstance(a.right, ast.Constant) and isinstance(a.right.value, int) and a.right.value != 0:
+                    n_sites += 1
+                    kk = "%s:%s" % (fi.key, norm(x))
+                    r.fail("C05.neighbour", kk, "the classifier hands the fixed-offset position `%s` to %s(), which looks at exactly that position: whitespace, a line break or a comment between the two tokens changes what it sees" % (norm(a), fn), fi.loc(x))
     r.extra["neighbour_sites"] = n_sites
     if n_sites < 10:
         raise AnalysisError("only %d neighbour-index sites found (expected ~21): enumeration broken" % n_sites)
@@ -312,6 +340,12 @@ def _skip_classes(p, fi, test, plain_names):
 
 
 VARIANTS = [
+    Variant("C05", "attribute designator looked up right behind the tick again (e9b52e5 reverted)", "fire",
+            [("vsg/vhdlFile/vhdlFile.py", "utils.classify_predefined_types(lTokens, utils.find_next_non_whitespace_token(iToken + 1, lTokens))", "utils.classify_predefined_types(lTokens, iToken + 1)")],
+            rule="C05.neighbour", key="classify_predefined_types"),
+    Variant("C05", "package body recognised by the raw position two after `package`", "fire",
+            [("vsg/vhdlFile/classify/package_declaration.py", "        if not utils.find_in_next_n_tokens(\"body\", 5, iCurrent, lObjects):", "        if not utils.object_value_is(lObjects, iCurrent + 2, \"body\"):")],
+            rule="C05.neighbour", key="object_value_is"),
     Variant("C05", "instantiation look-ahead steps over one whitespace token instead of searching the colon", "fire",
             [("vsg/vhdlFile/classify/component_instantiation_statement.py", "    iCurrent = utils.increment_token_count(iCurrent)\n    iCurrent = utils.find_next_token(iCurrent, lObjects)\n    if not utils.object_value_is(lObjects, iCurrent, \":\"):", "    iCurrent = utils.increment_token_count(iCurrent)\n    if utils.token_is_whitespace_token(lObjects[iCurrent]):\n        iCurrent = utils.increment_token_count(iCurrent)\n    if not utils.object_value_is(lObjects, iCurrent, \":\"):")],
             rule="C05.scan", key="single-step"),
